@@ -1,10 +1,55 @@
 CFG = {
     "modules": ["Parsley.Props.C05"],
-    "theorems": [],
+    "theorems": [
+        "Parsley.C05.stream_content_framed_iff", "Parsley.C05.stream_content_ok_framed", "Parsley.C05.framed_content",
+        "Parsley.C05.stream_content_rejects", "Parsley.C05.stream_no_resync",
+        "Parsley.C05.length_resolution", "Parsley.C05.lenRes_functional",
+        "Parsley.C05.stream_framing", "Parsley.C05.length_error_propagates",
+        "Parsley.C05.indirect_never_panics", "Parsley.C05.duplicate_id_rejected", "Parsley.C05.accepted_registers",
+        "Parsley.Indirect.streamContentP_closed", "Parsley.Indirect.closeLen_iff",
+    ],
+    "partial": {
+        "(stream_no_resync at the level of parse_pdf_indirect_obj)":
+            "stream_no_resync is proved at full strength for StreamContentP (any head, any two n-byte windows, any tail). "
+            "Lifting it to the whole indirect-object parser needs a locality lemma for the object parser (the parse of "
+            "`n g obj <<dict>>` does not read beyond the `stream` keyword), which is not proved; stream_framing gives the "
+            "equivalent statement relative to the parsed head (its right-hand side mentions the payload only through Framed), "
+            "and the correspondence run exercises keyword-laden payloads end to end",
+        "(endobj follows)":
+            "the white space between `endstream` and `endobj` is described by the token-level model wsEOL (C15/C02), not by a "
+            "separate declarative grammar; the oracle uses an independent spec-side skipWs",
+    },
     "n": {"quick": 1500, "thorough": 60000},
     "exhaustive": {"quick": False, "thorough": True},
-    "rule": "TODO",
-    "trusted_base": COMMON_TB + [],
-    "assumptions": [],
+    "rule": "corpus (17 hand-built + 25 sampled scenes); systematic grid: 10 payloads (benign, `endstream endobj xx`, LF endstream LF endobj LF, "
+            "an embedded complete stream object, binary with CR LF at both edges, empty, CR, ...) x declared length in {=, +1, +2, +1000, 2^63-1, -1, -n, n-1, 2, 0} "
+            "x 6 spellings after `stream` (LF, CRLF, CR, none, SP LF, LF CR) x 7 before `endstream` (none, CR, LF, CRLF, SP, LF LF, CR CR) "
+            "x {direct, backward reference, forward reference then re-parse} (thorough: full grid; quick: every 5th point plus half of the all-valid sub-grid); "
+            "random scenes of 1-4 indirect objects over 4 identifiers (streams with direct/referenced/missing/non-integer lengths, escaped `/Len#67th` keys, "
+            "4x4 extra dictionary entries in 3 orders, 9 whitespace/comment spellings per gap, defective endstream/endobj keywords; plain objects as length targets; "
+            "identifier collisions), each followed by a one-byte mutation / deletion / insertion / truncation of its text (raw case). "
+            "non-trivial = a stream whose payload contains endstream/endobj or begins/ends with CR/LF, or whose declared length differs from the payload length, "
+            "or is negative, by reference, missing or not an integer; raw: the mutated text still contains `stream` (distinct by case hash)",
+    "trusted_base": COMMON_TB + [
+        "modelled, not verified: ParseBuffer primitives (peek/exact/check_prefix/extract/set_cursor_unsafe) as list functions on a whole buffer (views: C17); "
+        "BTreeMap<ObjectId,_> insert/get as a sorted association list with the lexicographic order of (usize,usize); Rc sharing ignored",
+        "reused, proved elsewhere: token-parser and object-parser models (Model/Prim, Model/Obj; C15 LocOK, C16 parseObjB_good)",
+        "64-bit usize: i64 -> usize conversion succeeds iff the value is >= 0",
+    ],
+    "assumptions": [
+        "the buffer is an unrestricted ParseBuffer and the cursor is inside it; the context satisfies cur_depth <= max_depth and its map is a BTreeMap (sorted)",
+        "eol_after_stream_content is false in every context the crate can build (private field, no setter); theorems are proved for both values, the correspondence runs with false",
+    ],
 }
-LEVEL = {"design_ref": "DESIGN.md 3.C05", "technique": "TODO", "text": "TODO"}
+LEVEL = {
+    "design_ref": "DESIGN.md 3.C05",
+    "technique": "Lean 4 theorems over an executable model of IndirectP::parse_internal / StreamContentP / PDFObjContext (closed form of the stream-content "
+                 "parser by position-shift lemmas) + differential correspondence with parse_pdf_indirect_obj on generated scenes, judged by a declarative oracle",
+    "text": "Machine-checked proof, for all buffers, cursors, declared lengths, payload bytes and contexts, that StreamContentP succeeds exactly when the buffer is "
+            "framed `stream` (LF|CRLF) <n bytes, whatever they are> [CR][LF] `endstream` and then returns exactly those n bytes with start/size as reported; that "
+            "replacing the n data bytes by any other n bytes changes only the returned content (no resynchronisation); that the length lookup computes the declarative "
+            "relation (missing/negative/non-integer/reference to non-integer => guard error, undefined reference => InsufficientContext, reference to integer => it); that "
+            "parse_internal on a stream object succeeds iff length resolves, framing holds, endobj follows and the identifier is new; that no panic site is reachable; and "
+            "that a duplicate identifier is rejected after BTreeMap::insert has replaced the old binding. The model is tied to parse_pdf_indirect_obj by a correspondence run "
+            "(value, start/size/content, spans, cursor, error kind, depth delta, context look-ups) on systematic and random scenes with keyword-laden payloads.",
+}
